@@ -22,6 +22,7 @@ def run(ctx):
     ctx.assumptions += [
         "C06: wakers are not modelled at this level; the history's wake counters (wakes f => n:k, dropfut => ok / ok:woken) are judged against enabledness on the abstract state (exact occupancy), k > 0 is never constrained",
         "C06: a future only moves while it is polled; its waiter records are filed under a per-future id",
+        "C06: wake-ONE protocol: a polled, pending, enabled future may be unwoken (and a registered future polled again may stay Pending) while at least as many OTHER registered, enabled futures of the same direction exist as there are free slots / buffered items (the one wake-up per unit may sit with them); nothing is demanded while an operation of another thread is still in flight (the notification is the last step of a send / receive). A future of the same direction dropped after it was woken names finding F2 (signature suffix :after-woken-future-dropped)",
     ]
     if ctx.replay:
         if chanlib.replay_owner(ctx) is None:
